@@ -262,7 +262,7 @@ impl Property for C18 {
         "2-6 targets (nested and sibling; in every sixth scenario spread over a sub-directory, built by \
          specific rules there or by default.<ext>.do rules of the directory above) built by redo -j1..4 with log capture on and raw output; every \
          script writes numbered stderr lines before, between and after its redo-ifchange calls: \
-         partial lines completed later (also in 3-5 pieces with pauses of 15 ms-1.5 s between them), \
+         every sixth scenario: the deepest script is terminated by a signal after its last line (negative status in its done record, failing targets above it); partial lines completed later (also in 3-5 pieces with pauses of 15 ms-1.5 s between them), \
          lines of 5 kB and 70 kB, lines that resemble structured records \
          without being well-formed ones, lines from a background child of the script that writes \
          into the same log concurrently; the scheduler interleaves the writers with redo-log's reads, \
@@ -377,6 +377,21 @@ impl Property for C18 {
         if index % 6 == 2 {
             spread_over_directories(rng, &mut sc, &mut meta);
         }
+        if index % 6 == 4 {
+            // the last script (a leaf) writes its lines and is then terminated
+            // by a signal: its `done` record carries a negative status, every
+            // target above it fails at the redo-ifchange that asked for it
+            let victim = names[n - 1].clone();
+            for (p, r) in sc.rules.iter_mut() {
+                // (a background writer may be cut short by the failure)
+                r.stmts.retain(|st| !matches!(st, Stmt::ErrBg { .. }));
+                if p.trim_end_matches(".do") == victim {
+                    r.stmts.push(Stmt::KillSelf(*rng.pick(&[15, 9, 2])));
+                }
+            }
+            sc.family = "c18-signal".into();
+            meta.insert("victim".into(), serde_json::json!(victim));
+        }
         let j = rng.range(1, 4);
         let mut c = Cmd::new(&["redo", &format!("-j{}", j), "--no-pretty", "n0"]);
         if rng.chance(1, 4) {
@@ -401,14 +416,45 @@ impl Property for C18 {
     }
     fn check(&self, case: &Case, rec: &RunRecord, _obs: &dyn Observer) -> Vec<Violation> {
         let mut v = Vec::new();
-        if rec.groups.len() < 2 || !judgeable(&rec.groups[0]) || !judgeable(&rec.groups[1]) {
+        if rec.groups.len() < 2 {
+            return v;
+        }
+        // a crash of the log viewer loses lines: that is this property's business
+        // (crashes of the builders are C09's)
+        for (gi, view) in [(0usize, "live output"), (1usize, "redo-log replay")] {
+            let g = &rec.groups[gi];
+            let viewer = g.procs.iter().find(|p| {
+                p.name == "redo-log"
+                    && !p.killed
+                    && matches!(p.status, Some(s) if s == 101 || s == -(libc::SIGABRT) || s == -(libc::SIGSEGV))
+            });
+            if let Some(p) = viewer {
+                let msg = g
+                    .results
+                    .iter()
+                    .flat_map(|r| r.stderr.lines().chain(r.stdout.lines()))
+                    .find(|l| l.contains("panicked at"))
+                    .unwrap_or("")
+                    .to_string();
+                v.push(Violation {
+                    kind: "log-viewer-crashed".into(),
+                    detail: format!("{}: redo-log ({}) ended with status {:?}: {}", view, p.lid, p.status, msg),
+                });
+            }
+        }
+        if !v.is_empty() {
+            return v;
+        }
+        if !judgeable(&rec.groups[0]) || !judgeable(&rec.groups[1]) {
             return v;
         }
         let live = &rec.groups[0].results[0];
         let replay = &rec.groups[1].results[0];
-        if live.status != Some(0) {
+        let victim: Option<String> = case.meta.get("victim").and_then(|x| x.as_str()).map(|x| x.to_string());
+        if live.status != Some(0) && victim.is_none() {
             return v;
         }
+
         if replay.status != Some(0) {
             v.push(Violation {
                 kind: "log-replay-failed".into(),
@@ -437,14 +483,35 @@ impl Property for C18 {
                 .unwrap_or(t)
                 .to_string()
         };
+        // targets that fail because the victim below them is killed by a signal
+        let failing: std::collections::BTreeSet<String> = match &victim {
+            Some(vt) => {
+                let w = &rec.world_after[0];
+                rule_of
+                    .keys()
+                    .filter(|t| *t == vt || w.closure(t).contains(vt))
+                    .cloned()
+                    .collect()
+            }
+            None => Default::default(),
+        };
         let expected: BTreeMap<String, Vec<String>> = rule_of
             .iter()
             .filter_map(|(t, rp)| {
-                case.scenario
-                    .rules
-                    .iter()
-                    .find(|(p, _)| p == rp)
-                    .map(|(_, r)| (t.clone(), script_lines(r)))
+                case.scenario.rules.iter().find(|(p, _)| p == rp).map(|(_, r)| {
+                    if failing.contains(t) && Some(t) != victim.as_ref() {
+                        // the script ends at the first request that includes a failing target
+                        let cut = r
+                            .stmts
+                            .iter()
+                            .position(|st| matches!(st, Stmt::IfChange(v) | Stmt::Redo(v) if v.iter().any(|k| failing.contains(k))))
+                            .unwrap_or(r.stmts.len());
+                        let head = Rule { version: r.version, stmts: r.stmts[..cut].to_vec() };
+                        (t.clone(), script_lines(&head))
+                    } else {
+                        (t.clone(), script_lines(r))
+                    }
+                })
             })
             .collect();
         // redo-log shows the log of a target once per invocation, also when the
@@ -566,6 +633,19 @@ impl Property for C18 {
                 // (in the replay the last build of a rebuilt parent refers to its
                 // unchanged sub-target without a done record)
                 let root_in_replay = view == "redo-log replay" && (t == "n0" || below_rebuilt);
+                if failing.contains(t) {
+                    // a failing target: the victim's record carries the signal
+                    if Some(t) == victim.as_ref() && view == "live output" {
+                        let ok = done.get(t).map_or(false, |d| d.len() == 1 && d[0] < 0);
+                        if !ok {
+                            v.push(Violation {
+                                kind: "log-done-record".into(),
+                                detail: format!("{}: done records of {} (terminated by a signal): {:?}", view, t, done.get(t)),
+                            });
+                        }
+                    }
+                    continue;
+                }
                 if !root_in_replay && done.get(t).map(|d| d.as_slice()) != Some(&vec![0; k][..]) {
                     v.push(Violation {
                         kind: "log-done-record".into(),
